@@ -73,6 +73,7 @@ type viEvent struct {
 	Ok     bool       `json:"ok"`
 	Err    string     `json:"err"`
 	Panic  string     `json:"panic,omitempty"`
+	Guard  string     `json:"guard,omitempty"` // command NOT executed: it would kill the process (see viGuard)
 	Hang   bool       `json:"hang,omitempty"`
 }
 
@@ -341,10 +342,17 @@ func (l *viLay) observe(ch string, ev *viEvent, view, bounds telem.TimeRange, fr
 func (l *viLay) drive(run viRun, chans []string, it viIter, inner map[string]*unary.Iterator, value func(ch string) Frame,
 	traces map[string]*viTrace, progress *atomic.Int64) {
 	bounds := telem.TimeRange{Start: l.pt(run.A), End: l.pt(run.B)}
+	pre := map[string]telem.TimeRange{}
 	rec := func(ev viEvent) {
 		for _, ch := range chans {
 			e := ev
 			u := inner[ch]
+			switch e.C {
+			case "next":
+				e.Target = viSatAdd(int64(pre[ch].End), e.Span)
+			case "prev":
+				e.Target = viSatAdd(int64(pre[ch].Start), -e.Span)
+			}
 			l.observe(ch, &e, u.View(), u.Bounds(), value(ch), u.Valid(), u.Error())
 			traces[ch].Events = append(traces[ch].Events, e)
 		}
@@ -353,9 +361,12 @@ func (l *viLay) drive(run viRun, chans []string, it viIter, inner map[string]*un
 	rec(viEvent{C: "open", Chunk: run.Chunk})
 	for _, c := range run.Cmds {
 		ev := viEvent{C: c.C, K: c.K, Chunk: run.Chunk}
-		// span targets are computed from the view of the FIRST channel; all channels of a
-		// stream iterator are driven by the same span.
+		// hop spans are computed from the view of the FIRST channel; all channels of a
+		// stream iterator are driven by the same span (targets are per channel).
 		v0 := inner[chans[0]].View()
+		for _, ch := range chans {
+			pre[ch] = inner[ch].View()
+		}
 		switch c.C {
 		case "setbounds":
 			bounds = telem.TimeRange{Start: l.pt(c.A), End: l.pt(c.B)}
@@ -380,12 +391,41 @@ func (l *viLay) drive(run viRun, chans []string, it viIter, inner map[string]*un
 			ev.Span = int64(sp)
 			ev.Ok = it.Prev(sp)
 		case "nextauto":
+			if g := viGuard(true, v0, bounds); g != "" {
+				ev.Guard = g
+				rec(ev)
+				return
+			}
 			ev.Ok = it.Next(unary.AutoSpan)
 		case "prevauto":
+			if g := viGuard(false, v0, bounds); g != "" {
+				ev.Guard = g
+				rec(ev)
+				return
+			}
 			ev.Ok = it.Prev(unary.AutoSpan)
 		}
 		rec(ev)
 	}
+}
+
+// viGuard: autoNext falls back to `i.Next(ctx, i.view.Start.Span(i.bounds.End))` when the
+// chunk would end after the bounds; if the view sits exactly one nanosecond past the
+// bounds that span is -1 == AutoSpan and the call recurses without end: a FATAL stack
+// overflow that no recover() can stop (mirrored in autoPrev). The recorder must survive,
+// so such a command is not executed but recorded with `guard` set; the driver confirms the
+// crash in a separate process (VERIF_NOGUARD=1).
+func viGuard(fwd bool, view, bounds telem.TimeRange) string {
+	if os.Getenv("VERIF_NOGUARD") == "1" {
+		return ""
+	}
+	if fwd && int64(bounds.End)-int64(view.End) == int64(unary.AutoSpan) {
+		return "nextauto with view.end = bounds.end + 1ns"
+	}
+	if !fwd && int64(view.Start)-int64(bounds.Start) == int64(unary.AutoSpan) {
+		return "prevauto with view.start = bounds.start - 1ns"
+	}
+	return ""
 }
 
 var viHangBudget atomic.Int64
@@ -429,6 +469,7 @@ func (l *viLay) runOne(job viJob, run viRun, emit func(viTrace)) (panics int) {
 		return false
 	}
 	bounds := telem.TimeRange{Start: l.pt(run.A), End: l.pt(run.B)}
+	panicked := map[string]bool{}
 	if has(run.Modes, "unary") {
 		for _, ch := range run.Chans {
 			db.mu.RLock()
@@ -446,6 +487,7 @@ func (l *viLay) runOne(job viJob, run viRun, emit func(viTrace)) (panics int) {
 			})
 			if p != "" || hung {
 				panics++
+				panicked[ch] = true
 				n := len(tr.Events) - 1 // the command after the last recorded one did not return
 				c := viCmd{}
 				if n < len(run.Cmds) {
@@ -461,34 +503,25 @@ func (l *viLay) runOne(job viJob, run viRun, emit func(viTrace)) (panics int) {
 		}
 	}
 	if has(run.Modes, "stream") {
-		// A panic inside a unary iterator kills the stream goroutine and leaves the caller
-		// blocked; demonstrate that a bounded number of times only.
-		if panics > 0 && viHangBudget.Add(1) > 2 {
-			return
-		}
-		keys := make([]ChannelKey, len(run.Chans))
-		for i, ch := range run.Chans {
-			keys[i] = vsKeys[ch]
-		}
-		db.mu.RLock()
-		si, err := db.newStreamIterator(IteratorConfig{Channels: keys, Bounds: bounds, AutoChunkSize: run.Chunk})
-		db.mu.RUnlock()
-		if err != nil {
-			emit(viTrace{Layout: job.ID, Rid: run.Rid, Chan: run.Chans[0], Mode: "stream", Events: []viEvent{{C: "open", Err: "open: " + err.Error()}}})
-			return
-		}
-		it := wrapStreamIterator(si)
-		inner := map[string]*unary.Iterator{}
-		traces := map[string]*viTrace{}
-		for i, ch := range run.Chans {
-			inner[ch] = si.internal[i]
-			traces[ch] = &viTrace{Layout: job.ID, Rid: run.Rid, Chan: ch, Mode: "stream"}
-		}
-		p, hung := viGuarded(func(progress *atomic.Int64) {
-			l.drive(run, run.Chans, viStream{it}, inner, func(string) Frame { return it.Value() }, traces, progress)
-		})
 		for _, ch := range run.Chans {
-			tr := traces[ch]
+			// A panic inside a unary iterator kills the stream goroutine and leaves the
+			// caller blocked; demonstrate that a bounded number of times only.
+			if panicked[ch] && viHangBudget.Add(1) > 2 {
+				continue
+			}
+			db.mu.RLock()
+			si, err := db.newStreamIterator(IteratorConfig{Channels: []ChannelKey{vsKeys[ch]}, Bounds: bounds, AutoChunkSize: run.Chunk})
+			db.mu.RUnlock()
+			if err != nil {
+				emit(viTrace{Layout: job.ID, Rid: run.Rid, Chan: ch, Mode: "stream", Events: []viEvent{{C: "open", Err: "open: " + err.Error()}}})
+				continue
+			}
+			it := wrapStreamIterator(si)
+			tr := &viTrace{Layout: job.ID, Rid: run.Rid, Chan: ch, Mode: "stream"}
+			p, hung := viGuarded(func(progress *atomic.Int64) {
+				l.drive(run, []string{ch}, viStream{it}, map[string]*unary.Iterator{ch: si.internal[0]},
+					func(string) Frame { return it.Value() }, map[string]*viTrace{ch: tr}, progress)
+			})
 			if p != "" || hung {
 				n := len(tr.Events) - 1
 				c := viCmd{}
@@ -499,9 +532,9 @@ func (l *viLay) runOne(job viJob, run viRun, emit func(viTrace)) (panics int) {
 					Frame: [][2]int64{}, Series: [][4]int64{}})
 			}
 			emit(*tr)
-		}
-		if !hung && p == "" {
-			_ = it.Close()
+			if !hung && p == "" {
+				_ = it.Close()
+			}
 		}
 	}
 	return
